@@ -118,6 +118,15 @@ def run(ctx):
     kinds = {"xls_to_dict": "xls", "xlsx_to_dict": "xlsx", "md_to_dict": "md", "csv_to_dict": "csv"}
     r0 = Rule("C12", "C12.R0", "backend registry", floor=2, necessary="an unregistered or unknown backend is outside the cross-check")
     r0.check(procs == set(kinds), "SupportedFileTypes.get_processors", "the registered processors are the four backends this check compares", gp.loc(), why_fail=repr(sorted(procs)))
+    # without an explicit type the readers are tried in table order and the first one that does not refuse wins; the csv
+    # reader refuses nothing that contains a few commas (a Markdown table with commas in a label parses as a csv without
+    # sheets), so every more specific reader - Markdown in particular - must be tried before it
+    order = []
+    for x in walk_own(gp.node):
+        if isinstance(x, ast.Dict):
+            order = [norm(v) for v in x.values]
+    r0.check(bool(order) and order[-1] == "csv_to_dict" and "md_to_dict" in order and order.index("md_to_dict") < order.index("csv_to_dict"), "SupportedFileTypes.get_processors:order",
+             "the csv reader (which accepts any text with commas) is tried last, after the Markdown reader", gp.loc(), why_fail=f"order {order}")
     sft = repo.cls("pyxform.xls2json_backends:SupportedFileTypes")
     exts = sorted(m.value for m in ctx.consts.interp.enum_members(sft))
     r0.check(exts == [".csv", ".md", ".xls", ".xlsx", ".xlsm"] or sorted(exts) == sorted([".csv", ".md", ".xls", ".xlsx", ".xlsm"]), "SupportedFileTypes", "supported container types are md, csv, xls, xlsx, xlsm", sft.module.relpath, why_fail=repr(exts))
@@ -360,5 +369,27 @@ def run(ctx):
                  "the fallback form name is the file stem whether or not the suffix is a recognised type hint", gdd.loc(), why_fail=repr(d))
     except Raised as r:
         r4.fail("get_definition_data[existing path, unrecognised suffix]", f"evaluates ({r.exc_name}{r.exc_args})", gdd.loc())
+    # the dict channel: every field a reader can produce (sheets, their header rows, sheet names, fallback name) is
+    # taken over unchanged - the readers hand over the header rows, and so may a caller
+    gx = ctx.func("pyxform.xls2json_backends:get_xlsform", "C12.R4")
+    given = {}
+    for f_ in sorted(fields):
+        if f_ == "sheet_names":
+            given[f_] = ["survey", "choices"]
+        elif f_ == "fallback_form_name":
+            given[f_] = "fb"
+        elif f_.endswith("_header"):
+            given[f_] = [{"type": None, "name": None, "label::French (fr)": None}]
+        else:
+            given[f_] = [{"type": "text", "name": "q"}]
+    itx = ctx.interp("C12.R4", hooks={"new:DefinitionData": lambda i, a, k, n: dict(k)})
+    itx.reset([])
+    try:
+        got_x = itx.call_function(gx, [], {"xlsform": dict(given)}, None, gx.node)
+    except Raised as e:
+        got_x = f"raises {e.exc_name}{e.exc_args}"
+    lost_x = sorted(k for k in given if not (isinstance(got_x, dict) and got_x.get(k) == given[k]))
+    r4.check(not lost_x, "get_xlsform[dict with every DefinitionData field]", "each field of the dict reaches the workbook unchanged (sheets and their *_header rows alike)", gx.loc(),
+             why_fail=f"lost or changed: {lost_x}" if isinstance(got_x, dict) else str(got_x))
     rules.append(r4)
     return rules
